@@ -1,32 +1,463 @@
+// c01 — correspondence harness for property C01 (threshold signing by a qualified quorum
+// yields a publicly valid signature).  It runs full protocol executions of the real
+// implementation through the drivers under harness/internal/drive, evaluates the property's
+// own predicate on every run (terminates without error, the library's verifier AND an
+// independent verifier accept for exactly that message and key, all outputs equal), and ties
+// the run to the extracted Coq model: the nonces are read off the parties' random tapes, the
+// model predicts the exponent of R and the signature scalar, and the harness checks
+// ScalarBaseMul(exponent) == R and equality of s.
 package main
 
 import (
 	"fmt"
+	"os"
+	"runtime"
+	"sort"
+	"strconv"
+	"strings"
+	"sync"
 	"time"
 
 	"github.com/bronlabs/bron-crypto/pkg/mpc/sharing"
+
 	"verif/harness/internal/drive/keys"
-	"verif/harness/internal/drive/lindell22"
+	"verif/harness/internal/vh"
 )
 
-func main() {
-	for _, v := range []string{"bip340", "mina", "schnorr-k256", "schnorr-k256-neg", "schnorr-p256", "schnorr-k256-le"} {
-		for seed := int64(1); seed <= 4; seed++ {
-			t0 := time.Now()
-			res := lindell22.RunFull(lindell22.Config{Common: keys.Common{Seed: seed, Prop: "C01", Quorum: []sharing.ID{1, 3}, Session: "seeded", Message: []byte("hi")},
-				Policy: "T:2:1,2,3", Variant: v, Hash: "sha256"})
-			fmt.Println(v, seed, time.Since(t0), res.SetupErr, res.Trace.Verdicts)
-			if res.Sig != nil {
-				fmt.Println("  agg0", res.Sig.Lib, res.Sig.ROdd, res.Trace.Outputs[0])
+// ---- cases -----------------------------------------------------------------------------
+
+type kase struct {
+	Proto   string // dkls23 | lindell22 | boldyreva | lindell17 | cggmp21
+	Variant string // protocol specific, comma separated
+	Policy  string
+	Quorum  []sharing.ID
+	Msg     string // "e" empty | "b:<hex>" | "r:<len>:<tag>" pseudo-random bytes
+	Session string // seeded | real
+	Seed    int64
+}
+
+func (k kase) text() string {
+	return fmt.Sprintf("%s %s %s %s %s %s %d", k.Proto, k.Variant, k.Policy, keys.IDsText(k.Quorum), k.Msg, k.Session, k.Seed)
+}
+
+func parseCase(s string) (kase, error) {
+	f := strings.Fields(s)
+	if len(f) != 7 {
+		return kase{}, fmt.Errorf("bad case %q", s)
+	}
+	q, err := keys.ParseIDs(f[3])
+	if err != nil {
+		return kase{}, err
+	}
+	seed, err := strconv.ParseInt(f[6], 10, 64)
+	if err != nil {
+		return kase{}, err
+	}
+	return kase{Proto: f[0], Variant: f[1], Policy: f[2], Quorum: q, Msg: f[4], Session: f[5], Seed: seed}, nil
+}
+
+func (k kase) message() []byte {
+	switch {
+	case k.Msg == "e":
+		return []byte{}
+	case strings.HasPrefix(k.Msg, "b:"):
+		return vh.UnHex(k.Msg[2:])
+	case strings.HasPrefix(k.Msg, "r:"):
+		f := strings.Split(k.Msg, ":")
+		n, _ := strconv.Atoi(f[1])
+		tag, _ := strconv.Atoi(f[2])
+		return vh.NewRng(int64(tag), "C01", "msg", n).Bytes(n)
+	}
+	return []byte(k.Msg)
+}
+
+func (k kase) common() keys.Common {
+	return keys.Common{Seed: k.Seed, Prop: "C01", Quorum: k.Quorum, Session: k.Session, Message: k.message()}
+}
+
+// outcome of one evaluated case
+type outcome struct {
+	k          kase
+	class      string
+	nontrivial bool
+	propKey    string // "" if the property predicate holds on the implementation
+	propDetail string
+	corr       []corrFail // correspondence failures found before the model ran
+	model      []modelCheck
+	group      string // cases with the same group must yield the same signature (BLS uniqueness)
+	sigText    string
+	secs       float64
+}
+
+type corrFail struct{ key, detail string }
+
+// one line for the model driver plus the comparison of its answer
+type modelCheck struct {
+	line string
+	cmp  func(out []string) (key, detail string)
+}
+
+// ---- policies and ID assignments -------------------------------------------------------
+
+type absPolicy struct {
+	text string
+	n    int
+}
+
+var absPolicies = []absPolicy{
+	{"T:2:1,2,3", 3},
+	{"N:1,2|3,4", 4},                  // CNF, non-ideal: holders own several rows
+	{"G:g2[1,g1[2,3],g2[1,3]]", 3},    // gate tree with repeated leaves
+	{"U:1,2,3", 3},
+	{"H:1:1,2|2:3,4", 4},
+	{"T:3:1,2,3,4,5", 5},
+	{"N:1|2|3", 3},                    // 2-of-3 as CNF (two rows per holder)
+	{"G:g2[g2[1,2,3],g1[4,5]]", 5},
+	{"T:2:1,2", 2},
+}
+
+var assignments = [][]uint64{
+	{1, 2, 3, 4, 5, 6, 7},
+	{40, 7, 63, 12, 64, 2, 33},
+	{1<<40 + 5, 1<<63 + 1, 1<<40 + 1, 1<<64 - 1, 1<<52 + 7, 1 << 41, 1<<40 + 2},
+}
+
+// concrete policy: abstract policy a under assignment j
+func concretePolicy(a absPolicy, j int) keys.Policy {
+	p, err := keys.ParsePolicy(a.text)
+	if err != nil {
+		panic(err)
+	}
+	asg := append([]uint64(nil), assignments[j%len(assignments)][:a.n]...)
+	if p.Fam == 'H' { // the hierarchical family needs IDs increasing along the levels
+		sort.Slice(asg, func(x, y int) bool { return asg[x] < asg[y] })
+	}
+	return p.MapIDs(func(x uint64) uint64 { return asg[x-1] })
+}
+
+// pickQuorum chooses a qualified set: minimal when wantMinimal, else (if one exists) non-minimal;
+// at most maxSize members (0 = no limit). Returns nil if none fits.
+func pickQuorum(p keys.Policy, rng *vh.Rng, wantMinimal bool, maxSize int, exact int) []sharing.ID {
+	var min, non [][]sharing.ID
+	for _, s := range p.QualifiedSets() {
+		if maxSize > 0 && len(s) > maxSize {
+			continue
+		}
+		if exact > 0 && len(s) != exact {
+			continue
+		}
+		if p.Minimal(s) {
+			min = append(min, s)
+		} else {
+			non = append(non, s)
+		}
+	}
+	pool := min
+	if !wantMinimal && len(non) > 0 {
+		pool = non
+	}
+	if len(pool) == 0 {
+		pool = append(min, non...)
+	}
+	if len(pool) == 0 {
+		return nil
+	}
+	q := append([]sharing.ID(nil), pool[rng.Intn(len(pool))]...)
+	// present the quorum unsorted
+	for i := len(q) - 1; i > 0; i-- {
+		j := rng.Intn(i + 1)
+		q[i], q[j] = q[j], q[i]
+	}
+	return q
+}
+
+func msgSpec(i int, rng *vh.Rng, allowEmpty bool) string {
+	switch i % 4 {
+	case 0:
+		return "b:" + vh.Hex(rng.Bytes(1))
+	case 1:
+		if allowEmpty {
+			return "e"
+		}
+		return "b:" + vh.Hex(rng.Bytes(2))
+	case 2:
+		return fmt.Sprintf("r:10240:%d", rng.Intn(1000))
+	default:
+		return "b:" + vh.Hex(rng.Bytes(1+rng.Intn(40)))
+	}
+}
+
+type genSpec struct {
+	proto    string
+	variants []string
+	count    int
+	maxQ     int // largest quorum
+	exactQ   int
+	emptyOK  bool
+	polFilter func(absPolicy) bool
+}
+
+func generate(seed int64, tier string, search bool) []kase {
+	mul := 1
+	if tier == "thorough" {
+		mul = 12
+	}
+	if search {
+		mul *= 3
+	}
+	specs := []genSpec{
+		{proto: "dkls23", variants: []string{"bbot,k256,sha256", "bbot,p256,sha256", "bbot,k256,sha3-256", "bbot,k256,sha512"}, count: 4 * mul, maxQ: 2 + boolInt(tier == "thorough"), emptyOK: true},
+		{proto: "dkls23", variants: []string{"softspoken,k256,sha256", "softspoken,p256,sha256", "softspoken,k256,sha512"}, count: 5 * mul, maxQ: 3, emptyOK: true},
+		{proto: "lindell22", variants: []string{"bip340,-", "mina,-", "schnorr-k256,sha256", "schnorr-k256-neg,sha256", "schnorr-p256,sha256", "schnorr-k256-le,sha512"}, count: 36 * mul, maxQ: 4, emptyOK: true},
+		{proto: "boldyreva", variants: []string{"short,basic", "short,aug", "short,pop", "long,basic", "long,aug", "long,pop"}, count: 36 * mul, maxQ: 5, emptyOK: true},
+		{proto: "lindell17", variants: []string{"k256,sha256"}, count: lindell17Count(tier) * boolMul(search, 2), exactQ: 2, emptyOK: true,
+			polFilter: func(a absPolicy) bool { return lindell17Has(a.text) }},
+		{proto: "cggmp21", variants: []string{"k256,sha256"}, count: cggmpCount(tier), maxQ: 2, emptyOK: true,
+			polFilter: func(a absPolicy) bool { return cggmpHas(a.text) }},
+	}
+	var out []kase
+	for si, sp := range specs {
+		var pols []absPolicy
+		for _, a := range absPolicies {
+			if sp.polFilter == nil || sp.polFilter(a) {
+				pols = append(pols, a)
 			}
-			for id, s := range res.SigBy {
-				fmt.Println("  by", id, s.Lib, s.ROdd, res.Trace.Outputs[id])
+		}
+		if len(pols) == 0 {
+			continue
+		}
+		for i := 0; i < sp.count; i++ {
+			rng := vh.NewRng(seed, "C01", fmt.Sprintf("gen/%d", si), i)
+			a := pols[i%len(pols)]
+			asg := (i / len(pols)) % len(assignments)
+			if sp.proto == "lindell17" || sp.proto == "cggmp21" {
+				asg = 0 // stored key material exists for the ordinal assignment only
 			}
-			for id, v := range res.Trace.Verdicts {
-				if v.Class != "ok" {
-					fmt.Println("  verdict", id, v.Class, v.Round, v.Detail)
+			p := concretePolicy(a, asg)
+			q := pickQuorum(p, rng, i%2 == 0, sp.maxQ, sp.exactQ)
+			if q == nil {
+				continue
+			}
+			sess := "seeded"
+			if i%5 == 3 {
+				sess = "real"
+			}
+			k := kase{Proto: sp.proto, Variant: sp.variants[i%len(sp.variants)], Policy: p.Text(), Quorum: q,
+				Msg: msgSpec(i/2, rng, sp.emptyOK), Session: sess, Seed: seed*1000 + int64(i)}
+			out = append(out, k)
+			// BLS signatures are unique: a second quorum on the same key and message must give the same signature
+			if sp.proto == "boldyreva" && i%3 == 0 {
+				if q2 := pickQuorum(p, rng, i%2 != 0, sp.maxQ, 0); q2 != nil {
+					k2 := k
+					k2.Quorum = q2
+					out = append(out, k2)
 				}
 			}
 		}
 	}
+	return out
+}
+
+func boolInt(b bool) int {
+	if b {
+		return 1
+	}
+	return 0
+}
+
+func boolMul(b bool, m int) int {
+	if b {
+		return m
+	}
+	return 1
+}
+
+// ---- evaluation ------------------------------------------------------------------------
+
+func evaluate(idx int, k kase) (o *outcome) {
+	o = &outcome{k: k, class: k.Proto + "/" + k.Variant}
+	t0 := time.Now()
+	defer func() { o.secs = time.Since(t0).Seconds() }()
+	p := vh.Safely(func() {
+		switch k.Proto {
+		case "dkls23":
+			evalDkls(idx, k, o)
+		case "lindell22":
+			evalL22(idx, k, o)
+		case "boldyreva":
+			evalBls(idx, k, o)
+		case "lindell17":
+			evalL17(idx, k, o)
+		case "cggmp21":
+			evalCggmp(idx, k, o)
+		default:
+			o.propKey, o.propDetail = "unknown-protocol", k.Proto
+		}
+	})
+	if p != "" {
+		o.propKey, o.propDetail = k.Proto+"-harness-panic", p
+	}
+	return o
+}
+
+func main() {
+	a := vh.ParseArgs()
+	res := vh.NewResult("C01", a.Seed, a.Tier)
+	res.Rule = "full protocol runs of the real implementation (round functions driven through harness/internal/drive, every message through CBOR): " +
+		"protocol x variant (DKLs23 bbot/softspoken x k256/p256 x hash; Lindell22 x bip340/mina/vanilla(+neg,+le,p256); Boldyreva x short/long x basic/aug/pop; Lindell17; CGGMP21) x " +
+		"policy family (threshold, unanimity, CNF incl. non-ideal, hierarchical, gate trees with repeated leaves) x ID assignment (ordinal, sparse unsorted, >= 2^40) x " +
+		"quorum (minimal / non-minimal, presented unsorted) x message (empty, 1 byte, 10 kB, short random) x session contexts (seeded / real setup protocol) x seed; " +
+		"non-trivial = the run got past construction of all cosigners"
+
+	var cases []kase
+	if a.Replay != "" {
+		data, err := os.ReadFile(a.Replay)
+		if err != nil {
+			fmt.Fprintln(os.Stderr, err)
+			os.Exit(2)
+		}
+		for _, line := range strings.Split(string(data), "\n") {
+			if strings.HasPrefix(line, "case: ") {
+				k, err := parseCase(strings.TrimPrefix(line, "case: "))
+				if err != nil {
+					fmt.Fprintln(os.Stderr, err)
+					os.Exit(2)
+				}
+				cases = append(cases, k)
+			}
+		}
+	} else {
+		cases = append(corpusCases(), generate(a.Seed, a.Tier, a.Search)...)
+	}
+
+	// run the implementation (parallel; every run is self-contained and deterministic)
+	outs := make([]*outcome, len(cases))
+	workers := runtime.NumCPU()
+	if workers > 12 {
+		workers = 12
+	}
+	var wg sync.WaitGroup
+	ch := make(chan int)
+	for w := 0; w < workers; w++ {
+		wg.Add(1)
+		go func() {
+			defer wg.Done()
+			for i := range ch {
+				outs[i] = evaluate(i, cases[i])
+			}
+		}()
+	}
+	// long cases first
+	order := make([]int, len(cases))
+	for i := range order {
+		order[i] = i
+	}
+	sort.SliceStable(order, func(x, y int) bool { return weight(cases[order[x]]) > weight(cases[order[y]]) })
+	for _, i := range order {
+		ch <- i
+	}
+	close(ch)
+	wg.Wait()
+
+	// the model on the same cases
+	var lines []string
+	type ref struct{ o, m int }
+	var refs []ref
+	for oi, o := range outs {
+		for mi, mc := range o.model {
+			lines = append(lines, mc.line)
+			refs = append(refs, ref{oi, mi})
+		}
+	}
+	var modelOut []string
+	if len(lines) > 0 && a.Driver != "" && !a.Search {
+		var err error
+		modelOut, err = vh.Driver(a.Driver, lines)
+		if err != nil {
+			res.Mismatch(vh.Mismatch{ID: "driver", Kind: "corr", Key: "model-driver-failed", Detail: err.Error(), Case: "-", What: "extracted model could not be evaluated"})
+		}
+	}
+
+	groups := map[string]*outcome{}
+	for i, o := range outs {
+		res.Count(o.class, o.k.text(), o.nontrivial)
+		id := fmt.Sprintf("case-%d", i)
+		if o.propKey != "" {
+			res.Mismatch(vh.Mismatch{ID: id, Kind: "prop", Key: o.propKey, Detail: o.propDetail, Case: o.k.text(), PropFail: true,
+				What: "property predicate on the implementation: honest run terminates with a signature accepted by the library verifier and the independent verifier, all outputs equal"})
+		}
+		for _, c := range o.corr {
+			res.Mismatch(vh.Mismatch{ID: id, Kind: "corr", Key: c.key, Detail: c.detail, Case: o.k.text(), PropFail: o.propKey != "",
+				What: "correspondence between the run and the model's inputs (tapes / key material)"})
+		}
+		if o.group != "" && o.sigText != "" {
+			if prev, ok := groups[o.group]; ok && prev.sigText != o.sigText {
+				res.Mismatch(vh.Mismatch{ID: id, Kind: "prop", Key: o.k.Proto + "-signature-depends-on-quorum", PropFail: true,
+					Detail: fmt.Sprintf("quorum %s gives %s, quorum %s gives %s", keys.IDsText(prev.k.Quorum), prev.sigText, keys.IDsText(o.k.Quorum), o.sigText),
+					Case: o.k.text(), What: "boldyreva_quorum_independent: every accepted quorum yields the same (unique) BLS signature"})
+			} else if !ok {
+				groups[o.group] = o
+			}
+		}
+	}
+	if modelOut != nil {
+		for li, r := range refs {
+			o := outs[r.o]
+			key, detail := o.model[r.m].cmp(strings.Fields(modelOut[li]))
+			if key != "" {
+				res.Mismatch(vh.Mismatch{ID: fmt.Sprintf("case-%d", r.o), Kind: "corr", Key: key, Detail: detail + " | model: " + modelOut[li], Case: o.k.text(),
+					PropFail: o.propKey != "", What: "model tie: exponent of R / signature scalar predicted by the extracted Coq model from the tapes"})
+			}
+		}
+	}
+	if os.Getenv("C01_TIMING") != "" {
+		idx := make([]int, len(outs))
+		for i := range idx {
+			idx[i] = i
+		}
+		sort.Slice(idx, func(x, y int) bool { return outs[idx[x]].secs > outs[idx[y]].secs })
+		for _, i := range idx[:min(12, len(idx))] {
+			fmt.Fprintf(os.Stderr, "%6.1fs %s\n", outs[i].secs, firstN(outs[i].k.text(), 150))
+		}
+	}
+	res.Note("independent verifiers: crypto/ecdsa on elliptic.P256 (P-256 ECDSA), math/big affine secp256k1 (ECDSA, BIP-340, vanilla Schnorr), crypto/elliptic P-256 Schnorr equation, BLS pairing equation through the library's pairing; Mina has no independent verifier (Poseidon): library verifier + exponent tie only")
+	res.Note("model tie: DKLs23 r_i, phi_i and Lindell22 k_i are read off the tapes (48-byte little-endian reads reduced mod q by the model); VOLE/OT internals (chi, c, d), PRZS/HJKY zero shares and additive key shares are not visible on the tapes: the model is run on synthetic values satisfying vole_product / to_additive_sums / zero_sum and compared on what is visible (R, sum u, sum w, s, recovery id)")
+	res.Write(a.Out)
+}
+
+func weight(k kase) int {
+	w := len(k.Quorum) * len(k.Quorum)
+	switch {
+	case k.Proto == "dkls23" && strings.HasPrefix(k.Variant, "bbot"):
+		return 100 * w
+	case k.Proto == "cggmp21":
+		return 80 * w
+	case k.Proto == "lindell17":
+		return 30 * w
+	case k.Proto == "dkls23":
+		return 10 * w
+	}
+	return w
+}
+
+func corpusCases() []kase {
+	var out []kase
+	root := os.Getenv("VERIF_ROOT")
+	if root == "" {
+		root = "/verif"
+	}
+	data, err := os.ReadFile(root + "/corpus/c01/cases.txt")
+	if err != nil {
+		return nil
+	}
+	for _, line := range strings.Split(string(data), "\n") {
+		line = strings.TrimSpace(line)
+		if line == "" || strings.HasPrefix(line, "#") {
+			continue
+		}
+		if k, err := parseCase(line); err == nil {
+			out = append(out, k)
+		}
+	}
+	return out
 }
